@@ -192,7 +192,11 @@ def value_matches_kind(eng, v, kind):
     if kind.startswith("tuple:"):
         ks = kind[6:].split(",")
         return isinstance(v, tuple) and len(v) == len(ks) and all(value_matches_kind(eng, x, k) for x, k in zip(v, ks))
-    return None       # kinds of the list theory etc.: not judged
+    if kind == "slice":
+        return isinstance(v, SV) and v.t == "slice"
+    if kind == "rid":
+        return isinstance(v, SV) and v.t == "rid"
+    return None       # remaining kinds of the list theory: not judged
 
 
 def is_num_(v):
